@@ -251,6 +251,8 @@ class C12(Check):
                 cl = '-'
                 if li is not None and toks and li < len(toks):
                     cl = spec.classify_token(toks[li])
+                    if cl == 'text':
+                        cl = '-'
                 out.append((target, kind, gray, dname, new, cl))
 
         text_target('stdout', 'd_out.dat', case['out'])
